@@ -203,6 +203,21 @@ CHECKS = {
         'Trusts: the generated hooks (stamps through the public Node API, call log). Ancestors behind an unregistered '
         'intermediate class are not exercised.',
         'DESIGN.md 3 C10'),
+    'C11': (
+        'explicit-state BFS over operation histories (each executed in a process forked from a pristine parent, states merged '
+        'on a generic fingerprint of all yaml/yatiml state) + preemption-bounded exhaustive DFS over thread schedules of the '
+        'real code under a deterministic settrace/semaphore scheduler',
+        'Histories: 48 operations (create load / dumps / dumps_json functions over four class sets, two of them with different '
+        'classes of the same name; call them on six documents incl. !A/!B-tagged, invalid and unparseable ones; dump values of '
+        'own and foreign classes), all histories up to depth 3/5 modulo state merging; every call must give the result of its '
+        'minimal history, 24 yaml.safe_load/safe_dump/yaml.load probes must answer as in the pristine process, the user\'s class '
+        'dictionaries must be unchanged. Threads: 12 two-thread programs (x both thread orders) on shared and separate '
+        'functions; every schedule with <= 1 preemption at each call of yatiml and of six PyYAML modules, and at every line of '
+        'yatiml (quick: 6 programs; thorough: all), thorough also <= 2 preemptions at yatiml calls plus lines of functions in '
+        'which the shared-write audit saw shared state change; each thread\'s result must equal the sequential run.',
+        'Trusts: CPython switching threads only between bytecodes (GIL build); the fingerprint only for merging states. '
+        'Switches inside PyYAML\'s scanner/parser/emitter are not explored. Message texts are not compared.',
+        'DESIGN.md 3 C11'),
 }
 
 NOT_BUILT = {}
